@@ -1493,3 +1493,158 @@ func endfinCase(i int) ([]byte, string) {
 	ins(op(s.RET))
 	return assemble(it), fmt.Sprintf("in-finally|what%d|where%d|outercatch=%v", what, where, outer)
 }
+
+// ---------------------------------------------------------------- aliasing
+
+// aliasSources leave one byte-carrying value on the stack.
+func aliasSources() []val {
+	return []val{
+		{pushData([]byte("abc")), "", "ByteString constant 'abc'"},
+		{pushBuf([]byte{1, 2, 3, 4}), "", "Buffer 01020304"},
+		{cat(pushI(3), op(s.NEWBUFFER)), "", "NEWBUFFER 3"},
+		{cat(pushBuf([]byte("abc")), op(s.CONVERT, s.TByteStr)), "", "ByteString converted from a Buffer"},
+		{pushInt(big.NewInt(0x6261)), "", "Integer 0x6261"},
+		{pushData([]byte{0x41}), "", "ByteString constant 'A'"},
+		{cat(pushData([]byte("ab")), pushData([]byte("c")), op(s.CAT), op(s.CONVERT, s.TByteStr)), "", "ByteString from CAT"},
+		{pushData(rep(0x55, 40)), "", "ByteString constant of 40 bytes"},
+	}
+}
+
+// aliasDerivations turn [x] into [x, y] where y is derived from x.
+func aliasDerivations() []val {
+	e := pushData([]byte{})
+	eb := cat(pushI(0), op(s.NEWBUFFER))
+	d := func(c ...[]byte) []byte { return cat(op(s.DUP), cat(c...)) }
+	return []val{
+		{d(e, op(s.CAT)), "", "x CAT ''"},
+		{d(e, op(s.SWAP), op(s.CAT)), "", "'' CAT x"},
+		{d(pushI(0), op(s.CAT)), "", "x CAT Integer 0"},
+		{d(eb, op(s.CAT)), "", "x CAT empty Buffer"},
+		{d(eb, op(s.SWAP), op(s.CAT)), "", "empty Buffer CAT x"},
+		{d(pushData([]byte("z")), op(s.CAT)), "", "x CAT 'z'"},
+		{d(e, op(s.CAT), e, op(s.CAT)), "", "x CAT '' CAT ''"},
+		{d(op(s.PUSHF), op(s.CONVERT, s.TByteStr), pushI(0), op(s.LEFT), op(s.CAT)), "", "x CAT LEFT(..,0)"},
+		{d(pushI(0), op(s.OVER), op(s.SIZE), op(s.SUBSTR)), "", "SUBSTR(x,0,size)"},
+		{d(op(s.DUP), op(s.SIZE), op(s.LEFT)), "", "LEFT(x,size)"},
+		{d(op(s.DUP), op(s.SIZE), op(s.RIGHT)), "", "RIGHT(x,size)"},
+		{d(op(s.CONVERT, s.TBuffer)), "", "CONVERT Buffer"},
+		{d(op(s.CONVERT, s.TByteStr), op(s.CONVERT, s.TBuffer)), "", "CONVERT ByteString, Buffer"},
+		{d(op(s.CONVERT, s.TBuffer), op(s.CONVERT, s.TByteStr), e, op(s.CAT)), "", "CONVERT Buffer, ByteString, CAT ''"},
+		{d(), "", "the same item"},
+		{d(op(s.DUP), op(s.CAT)), "", "x CAT x"},
+		{d(op(s.DUP), op(s.SIZE), op(s.NEWBUFFER), op(s.DUP), op(s.REVERSE3), op(s.SWAP), op(s.PUSH0), op(s.SWAP), op(s.PUSH0), op(s.OVER), op(s.SIZE), op(s.MEMCPY)), "", "MEMCPY into a new buffer"},
+	}
+}
+
+// aliasMutations change the top item in place and keep it: [.., y] -> [.., y].
+func aliasMutations() []val {
+	return []val{
+		{cat(op(s.DUP), pushI(0), pushI('z'), op(s.SETITEM)), "", "SETITEM 0"},
+		{cat(op(s.DUP), op(s.REVERSEITEMS)), "", "REVERSEITEMS"},
+		{cat(op(s.DUP), pushI(0), pushData([]byte("Q")), pushI(0), pushI(1), op(s.MEMCPY)), "", "MEMCPY"},
+		{cat(op(s.DUP), op(s.DUP), op(s.SIZE), op(s.DEC), pushI(9), op(s.SETITEM)), "", "SETITEM last"},
+		{cat(op(s.DUP), pushI(0), op(s.OVER), pushI(0), op(s.PICKITEM), op(s.INC), op(s.SETITEM)), "", "increment byte 0"},
+		{nil, "", "no mutation"},
+	}
+}
+
+// aliasCase: source, derivation, in-place mutation of the derived value, both
+// left on the stack; executed once, in a function called twice, or in a loop
+// executed three times (re-executing the same PUSHDATA).
+func aliasCase(i int) ([]byte, string) {
+	src, der, mut := aliasSources(), aliasDerivations(), aliasMutations()
+	x := mixRadix(i, len(mut), len(der), len(src), 3)
+	body := cat(src[x[2]].code, der[x[1]].code, mut[x[0]].code)
+	what := fmt.Sprintf("%s; %s; %s", src[x[2]].desc, der[x[1]].desc, mut[x[0]].desc)
+	switch x[3] {
+	case 0:
+		return body, "alias once: " + what
+	case 1:
+		// 0: CALL +5; 2: CALL +3; 4: RET; 5: body RET
+		return cat(op(s.CALL, 5), op(s.CALL, 3), op(s.RET), body, op(s.RET)), "alias called twice: " + what
+	default:
+		// INITSSLOT 1; PUSH0; STSFLD0; L: body; LDSFLD0; INC; DUP; STSFLD0; PUSH3; JMPLT L
+		pre := cat(op(s.INITSSLOT, 1), op(s.PUSH0), op(s.STSFLD0))
+		tail := cat(op(s.LDSFLD0), op(s.INC), op(s.DUP), op(s.STSFLD0), op(s.PUSH3))
+		back := -(len(body) + len(tail))
+		var j []byte
+		if back >= -128 {
+			j = op(s.JMPLT, byte(int8(back)))
+		} else {
+			j = op(s.JMPLTL, byte(back), byte(back>>8), byte(back>>16), byte(back>>24))
+		}
+		return cat(pre, body, tail, j), "alias loop x3: " + what
+	}
+}
+
+// aliasRandom: a random chain of derivations, the source optionally kept in a
+// slot or an array, random in-place mutations of some of the derived values.
+func aliasRandom(r *rng.R) ([]byte, string) {
+	src, der, mut := aliasSources(), aliasDerivations(), aliasMutations()
+	sc := cat(op(s.INITSSLOT, 2), src[r.Intn(len(src))].code)
+	names := ""
+	switch r.Intn(3) {
+	case 0:
+		sc = cat(sc, op(s.DUP), op(s.STSFLD0))
+	case 1:
+		sc = cat(sc, op(s.DUP), pushI(1), op(s.PACK), op(s.STSFLD0+1))
+	}
+	n := 1 + r.Intn(3)
+	for k := 0; k < n; k++ {
+		d := der[r.Intn(len(der))]
+		sc = append(sc, d.code...)
+		names += d.desc + "; "
+		if r.Chance(2, 3) {
+			m := mut[r.Intn(len(mut)-1)]
+			sc = append(sc, m.code...)
+			names += m.desc + "; "
+		}
+		if r.Chance(1, 4) {
+			sc = cat(sc, pushI(int64(r.Intn(k+2))), op(s.PICK)) // go on from an older value
+		}
+	}
+	sc = cat(sc, op(s.LDSFLD0), op(s.LDSFLD0+1))
+	return sc, names
+}
+
+// sharedBudgetCase: EQUAL / NOTEQUAL of two different structs whose ByteString
+// members are the very same items; every compared pair is charged its length,
+// identical or not, so the sum decides.
+func sharedBudgetCase(i int) ([]byte, string) {
+	sizes := []int64{1000, 20000, 32000, 32760, 32768, 32775, 36768, 50000, 65536, 65540, 22000}
+	x := mixRadix(i, len(sizes), 7, 2)
+	n := sizes[x[0]]
+	bs := cat(op(s.PUSHINT32, byte(n), byte(n>>8), byte(n>>16), byte(n>>24)), op(s.NEWBUFFER), op(s.CONVERT, s.TByteStr))
+	var sc []byte
+	var what string
+	switch x[1] {
+	case 0:
+		what = "same item packed into two structs [b,b] [b,b]"
+		sc = cat(bs, op(s.DUP), op(s.DUP), op(s.DUP), pushI(2), op(s.PACKSTRUCT), op(s.REVERSE3), pushI(2), op(s.PACKSTRUCT))
+	case 1:
+		what = "struct [b,b] and its APPEND copy"
+		sc = cat(bs, op(s.DUP), pushI(2), op(s.PACKSTRUCT), op(s.NEWARRAY0), op(s.DUP), pushI(2), op(s.PICK), op(s.APPEND), pushI(0), op(s.PICKITEM))
+	case 2:
+		what = "struct [b,b] and its SETITEM copy"
+		sc = cat(bs, op(s.DUP), pushI(2), op(s.PACKSTRUCT), pushI(1), op(s.NEWARRAY), op(s.DUP), pushI(0), pushI(3), op(s.PICK), op(s.SETITEM), pushI(0), op(s.PICKITEM))
+	case 3:
+		what = "struct [b,b] and its VALUES copy"
+		sc = cat(bs, op(s.DUP), pushI(2), op(s.PACKSTRUCT), op(s.DUP), pushI(1), op(s.PACK), op(s.VALUES), pushI(0), op(s.PICKITEM))
+	case 4:
+		what = "three shared members [b,b,b] [b,b,b]"
+		sc = cat(bs, op(s.DUP), op(s.DUP), op(s.DUP), op(s.DUP), op(s.DUP), pushI(3), op(s.PACKSTRUCT), op(s.REVERSE4), pushI(3), op(s.PACKSTRUCT))
+	case 5:
+		what = "shared member next to a separately built equal one [b,c] [b,c']"
+		c := cat(op(s.DUP), op(s.CONVERT, s.TBuffer), op(s.CONVERT, s.TByteStr))
+		// b c -> [b,c] ; then b c' -> [b,c']
+		sc = cat(bs, op(s.DUP), c, op(s.SWAP), pushI(2), op(s.PACKSTRUCT), op(s.SWAP), c, op(s.SWAP), pushI(2), op(s.PACKSTRUCT))
+	default:
+		what = "nested struct [b,[b]] and its APPEND copy"
+		sc = cat(bs, op(s.DUP), pushI(1), op(s.PACKSTRUCT), op(s.SWAP), pushI(2), op(s.PACKSTRUCT), op(s.NEWARRAY0), op(s.DUP), pushI(2), op(s.PICK), op(s.APPEND), pushI(0), op(s.PICKITEM))
+	}
+	o := s.EQUAL
+	if x[2] == 1 {
+		o = s.NOTEQUAL
+	}
+	return cat(sc, op(o)), fmt.Sprintf("%s %s, member size %d", o, what, n)
+}
